@@ -1,6 +1,7 @@
 import JSight.ErrPos
 import JSight.RenderProofs
 import JSight.ByteLemmas
+import JSight.RenderLine
 /-!
 # C17 — Errors point at the offending byte and render correctly
 
@@ -11,6 +12,8 @@ import JSight.ByteLemmas
 * `C17_render_total`: for every file content and every position inside it the renderer
   (`errors/document.go`: line number, line text, caret) produces a result — no index out of range,
   no negative repeat count.
+* `C17_line_number`, `C17_line_lf / _cr / _crlf`: the line number shown is 1 + the number of new-line
+  symbols before the position; the symbol is LF for LF and CRLF files and CR for CR files.
 Validation-error positions and the exact line/caret text are checked against the code (harness
 `c17-positions`, `render-diff`), see DESIGN.md §4 C17.
 -/
@@ -50,6 +53,26 @@ theorem C17_json_errpos (bs : List UInt8) (j : Nat) (he : Sim.errPos Cfg.init (b
 theorem C17_render_total (content : Array UInt8) (idx : Nat) (h : idx < content.size) :
     (Render.render content idx).isSome = true :=
   Render.render_total content idx h
+
+/-- the rendered line number is 1 + the number of new-line symbols strictly before the position -/
+theorem C17_line_number (content : Array UInt8) (idx : Nat) (h : idx < content.size) :
+    Render.line content idx = some (1 + Render.countNl content (Render.detectNl content.toList) idx) :=
+  Render.line_eq content idx h
+
+/-- LF files (no CR anywhere): lines are counted by LF -/
+theorem C17_line_lf (content : Array UInt8) (idx : Nat) (h : idx < content.size) (hlf : ∀ c ∈ content.toList, c ≠ 13) :
+    Render.line content idx = some (1 + Render.countNl content 10 idx) := by
+  rw [C17_line_number content idx h, Render.detectNl_lf _ hlf]
+
+/-- CR files (no LF, at least one CR): lines are counted by CR -/
+theorem C17_line_cr (content : Array UInt8) (idx : Nat) (h : idx < content.size) (hcr : ∀ c ∈ content.toList, c ≠ 10)
+    (hex : ∃ c ∈ content.toList, c = 13) : Render.line content idx = some (1 + Render.countNl content 13 idx) := by
+  rw [C17_line_number content idx h, Render.detectNl_cr _ hcr hex]
+
+/-- CRLF files (every CR immediately followed by LF): lines are counted by LF, one per CRLF pair -/
+theorem C17_line_crlf (content : Array UInt8) (idx : Nat) (h : idx < content.size) (hw : Render.CRLF content.toList) :
+    Render.line content idx = some (1 + Render.countNl content 10 idx) := by
+  rw [C17_line_number content idx h, Render.detectNl_crlf _ hw]
 
 /-! Non-vacuity -/
 def s (x : String) : List UInt8 := x.toList.map (fun c => UInt8.ofNat c.toNat)
